@@ -45,7 +45,7 @@ def pair_table(rep, kind, ka, kb, ops):
                     return specs.merge_labels(O, A, mA, MA, B, "A", "B")
                 return specs.union_interval(O, A, mA, MA, B)
             want = run_spec(idx, st, spec)
-            row = compare_outcomes(I, op, got, want)
+            row = compare_outcomes(I, op, got, want, strict_ties=True)
             if row[1] and got.kind == "ok" and not got.value.get("receiver_unchanged", True):
                 row = (op, False, "operation returned or modified its receiver", None)
             out.append(row)
